@@ -105,7 +105,12 @@ def build_source(ctx, rng, kind, idx):
         f = str(rng.choice(sorted(model["features"])[1:]))
         k = int(rng.integers(1, max(2, n // 2)))
         model["features"][f] = gd.slice_feature(model["features"][f], slice(0, n - k))
+        short = (f, n - k)
+    else:
+        short = None
     desc = {"kind": kind, "model": gd.describe(model)}
+    if short:
+        desc["short_feature"] = list(short)
     if kind == "dict" or (kind.startswith("hier") and rng.random() < 0.5):
         ds = dclab.new_dataset(dict(model["features"]))
         ds.config.update({s: dict(kv) for s, kv in model["meta"].items()})
@@ -142,6 +147,19 @@ def build_source(ctx, rng, kind, idx):
             closers.append(ds)
         desc["child_len"] = len(ds)
     return ds, closers, desc
+
+
+def short_contour_model(desc, exc, feats):
+    """Defect model D57: the HDF5 contour feature takes its length from the event count, so a
+    file holding fewer contours than events reports a wrong len(); the export's documented
+    limitation to the shortest feature cannot see it and iterating the contours fails with
+    KeyError for the first missing entry (= number of stored contours)."""
+    short = desc.get("short_feature")
+    if short and short[0] == "contour" and isinstance(exc, KeyError) \
+            and (feats is None or "contour" in feats) \
+            and f"object '{short[1]}' doesn't exist" in str(exc):
+        return "h5-contour-length-taken-from-event-count"
+    return None
 
 
 def run_case(ctx, idx):
@@ -199,6 +217,7 @@ def run_case(ctx, idx):
                 ctx.ev("export_no_exception")
                 ctx.violation("export_no_exception", dict(case, exc=repr(exc),
                                                           tb=traceback.format_exc()[-1200:]),
+                              finding=short_contour_model(desc, exc, feats),
                               message=f"export.hdf5 raised {exc!r}")
             ctx.count(f"exports[{kind}]")
             if (sel > chunk and nsc and (feats is None or set(feats) & set(nsc))) \
